@@ -11,6 +11,9 @@ CLAIMED = {
  "C02": ("round-trip property testing (proptest): own SqPack/deflate (miniz_oxide) encoder -> Physis extraction -> byte comparison / header validity predicate",
          "Generated-input search over entry kinds, block splits and per-block raw/stored/fixed/dynamic deflate streams; extracted bytes compared with the packed content (model entries through a validity predicate over the synthesised header).",
          "Trusts miniz_oxide as an independent deflater (self-checked) and the harness's entry encoder.", "5/C02"),
+ "C05": ("round-trip property testing (proptest): own big-endian EXH/EXD/EXL encoder -> Physis read_row / sheet lookup through a generated archive -> comparison with the generated cell values",
+         "Generated-input search over schemas (all 19 column types, arbitrary offsets), row sets (sub-rows, string heaps, extreme values) and archive layouts; every cell compared with the stored value.",
+         "Trusts the harness's Excel encoder (written from the format description, junk-filled gaps).", "5/C05"),
  "C11": ("property-based differential testing (proptest) against a textbook Blowfish with pi-derived tables; published vectors enumerated",
          "Generated-input search: thousands of random keys/messages per run compared block-by-block with an independent reference whose tables are computed from pi at run time; held on everything explored, not a proof.",
          "Trusts the harness's reference Blowfish and pi computation (self-checked against Schneier's vectors and table end words at start-up).", "5/C11"),
